@@ -40,7 +40,9 @@
     trace_changes_nothing map_text_changes_only_selected_text map_text_preserves_wellnested
     sanitizer_wellnested translator_wellnested
     apply_leaves_origin apply_appends_one_link history_keeps_chains
-    lazy_trace_semantics
+    lazy_trace_semantics trace_chain_wellnested lazy_raw_chain_wellnested
+    apply_transformer_leaves_origins apply_transformer_concatenates history_mixed_keeps_chains
+    apply_transformer_runs_in_sequence attr_callable_changes_only_selected
     emptytag_wellnested whitespace_filter_wellnested doctype_inserter_wellnested
     ns_flattener_wellnested_partial ns_flattener_wellnested_ns_partial
 -/
@@ -52,6 +54,8 @@ import Genshi.Lemmas.TfLazyDiv
 import Genshi.Lemmas.TfLazyAgree
 import Genshi.Lemmas.TfOther
 import Genshi.Lemmas.TfTrace
+import Genshi.Lemmas.TfTraceInv
+import Genshi.Lemmas.TfDerive
 import Genshi.Lemmas.TfSerial
 namespace Genshi.Props.C20
 open Genshi Genshi.Tf
@@ -436,6 +440,51 @@ theorem history_keeps_chains {α : Type} : ∀ (ds : List (Nat × α)) (h : List
 example : history [[0]] [(0, 1), (0, 2), (1, 3)] =
     [[[0], [0, 1]], [[0], [0, 1], [0, 2]], [[0], [0, 1], [0, 2], [0, 1, 3]]] := by decide
 
+/-! ### `Transformer.apply(Transformer)`: chain concatenation -/
+
+/-- Deriving by `t_k.apply(t_j)` leaves every transformer built before — the origin `t_k` and the
+    argument `t_j` included — as it was. -/
+theorem apply_transformer_leaves_origins {α : Type} (h : List (List α)) (k j i : Nat) (hi : i < h.length) :
+    (deriveCat h k j)[i]? = h[i]? := Genshi.Tf.apply_transformer_leaves_origins h k j i hi
+
+/-- … and the new transformer's chain is the origin's chain followed by ALL links of the argument, in
+    their order. -/
+theorem apply_transformer_concatenates {α : Type} (h : List (List α)) (k j : Nat) :
+    (deriveCat h k j)[h.length]? = some (h.getD k [] ++ h.getD j []) ∧
+      (deriveCat h k j).length = h.length + 1 := Genshi.Tf.apply_transformer_concatenates h k j
+
+/-- Over a whole history mixing operation methods and `apply(Transformer)`: nothing built before is
+    ever changed. -/
+theorem history_mixed_keeps_chains {α : Type} (ds : List (DStep α)) (h : List (List α)) (snap : List (List α))
+    (hm : snap ∈ historyD h ds) : snap.take h.length = h := historyD_keeps_chains ds h snap hm
+
+/-- The transformer made by `t_k.apply(t_j)` behaves like `t_k` followed by the links of `t_j` applied
+    to the MARKED output of `t_k` and the buffers it left. -/
+theorem apply_transformer_runs_in_sequence (h : List (List Op)) (k j : Nat) (bufs : Bufs) (s : MStream) :
+    ∀ c, (deriveCat h k j)[h.length]? = some c →
+      runChain c bufs s = (runChain (h.getD k []) bufs s).bind fun r => runChain (h.getD j []) r.2 r.1 :=
+  Genshi.Tf.apply_transformer_runs_in_sequence h k j bufs s
+
+example : historyD [[0]] [.one 0 1, .one 0 2, .cat 1 2] =
+    [[[0], [0, 1]], [[0], [0, 1], [0, 2]], [[0], [0, 1], [0, 2], [0, 1, 0, 2]]] := by decide
+
+/-- attr(name, f) for ANY callable `f(name, event)`: the stream keeps its length and its marks; only an
+    ENTER-marked START event changes, and only by the attribute `name` being set to `f`'s value or
+    deleted when `f` returns `None`. -/
+theorem attr_callable_changes_only_selected (n : QName) (f : QName → AttrList → Option Str) (s : MStream) :
+    setAttrFn n f s = s.map (attrFnEv n f) ∧
+    (∀ p : MItem, (attrFnEv n f p).1 = p.1) ∧
+    (∀ (m : Option Mark) (x : MEv), m ≠ some .enter → attrFnEv n f (m, x) = (m, x)) ∧
+    (∀ (m : Option Mark) (x : MEv), (∀ t a, x ≠ .ev (.start t a)) → attrFnEv n f (m, x) = (m, x)) ∧
+    (∀ t a, attrFnEv n f (some .enter, .ev (.start t a)) =
+        (some .enter, .ev (.start t (match f t a with
+          | none => attrsSub a [n]
+          | some w => attrsSet a n w)))) := Genshi.Tf.attr_callable_changes_only_selected n f s
+
+example : setAttrFn (qn 'k') (fun t _ => some t.loc)
+    [(some .enter, .ev (.start (qn 'a') [])), (some .exit, .ev (.end_ (qn 'a')))] =
+    [(some .enter, .ev (.start (qn 'a') [(qn 'k', ['a'])])), (some .exit, .ev (.end_ (qn 'a')))] := by decide
+
 /-! ## the chain as the code runs it: lazily interleaved links (`Model/TfLazy.lean`) -/
 
 /-- The lazily evaluated chain (`runLazy`: every link a transducer, items pushed through the links
@@ -525,6 +574,73 @@ example :
         (markAll [.start (qn 'r') [], .start (qn 'a') [], .end_ (qn 'a'), .end_ (qn 'r')])).map (fun r => unmark r.1) =
       some [.start (qn 'r') [], .start (qn 'a') [], .end_ (qn 'a'), .start (qn 'a') [], .end_ (qn 'a'),
         .end_ (qn 'r')] := by decide
+
+/-
+  `chain_wellnested` for writer-then-reader chains without a barrier (lazily read buffers).
+
+  Invariant, link by link over the trace semantics: "well nested; `Good` — or, after `invert()`, free
+  of ENTER/EXIT marks —; EVERY BUFFER HOLDS BALANCED CONTENT WHENEVER AN ITEM IS YIELDED" (`BalAt`),
+  hence at every injection point.  A `copy` / `cut` link yields nothing while a selection is open
+  and its buffer incomplete (`copy_balAt`, `cut_balAt`: on a `Good` input the buffer, completed by
+  what the rest of the current selection will still append, is balanced); a link that writes nothing
+  yields only in answer to an item of the link before it (`linkU_balAt`); what an injector that reads
+  a buffer lazily yields is its loop with a content that varies from injection to injection, each one
+  balanced (`run_link` / `prepend_link` / `append_link` + `runGoL_good`, `runGoL_balance`,
+  `runGoL_balance_any`, …).
+
+  Hypotheses: `Admissible true ops` — exactly the hypothesis of `chain_wellnested` (the documented
+  precondition after `invert()`, balanced literal contents, `FOk` filters); `OneWriter [] ops` — between
+  two `buffer()` barriers a buffer has at most one writer (the negation is finding
+  C20-buffer-two-writers); `lazyRaw ops` — no link writes a buffer it or an earlier link of the segment
+  reads (the negation is finding C20-buffer-feedback, or a reader in front of its writer);
+  `traceSelOk` — the recorded `Path.test()` results fit (re-checked by the driver on every run, like
+  `chainSelOk`).  Every `stagewise` chain satisfies the two buffer hypotheses.
+-/
+theorem trace_chain_wellnested (ops : List Op) (s : Stream) (hs : WellNested s)
+    (hadm : Admissible true ops) (hone : OneWriter [] ops)
+    (hsel : traceSelOk (segs ops) (fun _ => []) (markAll s) = true)
+    (out : MStream) (b : BufF) (h : runTrace ops (fun _ => []) (markAll s) = some (out, b)) :
+    WellNested (unmark out) :=
+  Genshi.Tf.trace_chain_wellnested ops s hs (admSegs_admissible ops hadm hone) hsel out b h
+
+/-- … for the chain as the code runs it (the push pipeline, any fuel). -/
+theorem lazy_raw_chain_wellnested (F : Nat) (ops : List Op) (s : Stream) (hs : WellNested s)
+    (hraw : lazyRaw ops = true) (hadm : Admissible true ops) (hone : OneWriter [] ops)
+    (hsel : traceSelOk (segs ops) (fun _ => []) (markAll s) = true)
+    (out : MStream) (b : BufF) (h : runLazy F ops (fun _ => []) (markAll s) = .ok (out, b)) :
+    WellNested (unmark out) := by
+  have ht := lazy_trace F ops (fun _ => []) (markAll s) hraw
+  rw [h] at ht
+  exact trace_chain_wellnested ops s hs hadm hone hsel out b ht.symm
+
+/-- non-vacuity: `Transformer('a').copy(b).after(b)`, the documented
+    `Transformer('a').copy(b).end().select('c').prepend(b)` (no `buffer()` barrier), and a buffer read
+    lazily after `invert()` are inside the hypotheses; the second one on `<r><a/><c/></r>` gives
+    `<r><a/><c><a/></c></r>`. -/
+example :
+    (Admissible true [.select [.none, .hit, .none], .copy 0 false, .after (.buf 0)] ∧
+      OneWriter [] [.select [.none, .hit, .none], .copy 0 false, .after (.buf 0)]) ∧
+    (Admissible true [.select [.none, .hit, .none], .cut 0 true, .invert, .before (.buf 0)] ∧
+      OneWriter [] [.select [.none, .hit, .none], .cut 0 true, .invert, .before (.buf 0)]) ∧
+    (Admissible true [.select [.none, .hit, .none, .none], .copy 0 false, .endSel,
+        .select [.none, .none, .none, .hit, .none, .none], .prepend (.buf 0)] ∧
+      OneWriter [] [.select [.none, .hit, .none, .none], .copy 0 false, .endSel,
+        .select [.none, .none, .none, .hit, .none, .none], .prepend (.buf 0)]) ∧
+    lazyRaw [.select [.none, .hit, .none, .none], .copy 0 false, .endSel,
+      .select [.none, .none, .none, .hit, .none, .none], .prepend (.buf 0)] = true ∧
+    traceSelOk (segs [.select [.none, .hit, .none, .none], .copy 0 false, .endSel,
+      .select [.none, .none, .none, .hit, .none, .none], .prepend (.buf 0)]) (fun _ => [])
+      (markAll [.start (qn 'r') [], .start (qn 'a') [], .end_ (qn 'a'), .start (qn 'c') [], .end_ (qn 'c'),
+        .end_ (qn 'r')]) = true ∧
+    lazyOut 0 [.select [.none, .hit, .none, .none], .copy 0 false, .endSel,
+      .select [.none, .none, .none, .hit, .none, .none], .prepend (.buf 0)]
+      [.start (qn 'r') [], .start (qn 'a') [], .end_ (qn 'a'), .start (qn 'c') [], .end_ (qn 'c'), .end_ (qn 'r')] =
+    some [.start (qn 'r') [], .start (qn 'a') [], .end_ (qn 'a'), .start (qn 'c') [], .start (qn 'a') [],
+      .end_ (qn 'a'), .end_ (qn 'c'), .end_ (qn 'r')] := by
+  refine ⟨?_, ?_, ?_, by decide, by decide, by decide⟩
+  · simp [Admissible, Op.OkGood, Op.next, Content.Ok, OneWriter, wrOp]
+  · simp [Admissible, Op.OkGood, Op.OkDirty, Op.next, Content.Ok, OneWriter, wrOp]
+  · simp [Admissible, Op.OkGood, Op.next, Content.Ok, OneWriter, wrOp]
 
 /-! ## the other built-in stream filters: well-nestedness theorems of their owners, re-used
 
